@@ -139,6 +139,15 @@ FRAGMENTS = [
 
 #: fragments that make sense for any rank (run on 1-D, 2-D and 3-D inputs)
 FRAGMENTS_ANY = [
+    "y = torch.zeros(3, 4)\ny.scatter_(1, torch.tensor([[0, 2], [1, 3], [3, 0]]), 1)\nr = y * t.flatten()[0]",
+    "y = torch.zeros(2, 3)\ny.scatter_(0, torch.tensor([[1, 0, 1]]), torch.tensor([[5.0, 6.0, 7.0]]))\nr = y + t.flatten()[0]",
+    "y = torch.zeros(2, 3)\ny[1][2] = t.flatten()[0]\ny[0][0] = 4\nr = y",
+    "y = torch.zeros(2, 2, 2)\ny[1][0][1] = t.flatten()[0]\nr = y",
+    "c = torch.complex(t, t * 2)\nd = t.dtype\nr = torch.as_tensor(c, dtype=d) + 1",
+    "c = torch.complex(t, -t)\nr = c.to(t.dtype) * 2",
+    "c = torch.complex(t, t + 1)\nr = c.to(torch.complex128).imag + c.real",
+    "r = torch.as_tensor(t * 1.7, dtype=torch.int64) + torch.tensor(2.9, dtype=torch.long)",
+    "r = (t * 1.5).to(dtype=torch.float64) + t.double()",
     "nz = torch.nonzero(t > 0, as_tuple=False)\nr = nz.sum() + len(nz)",
     "acc = torch.zeros(1)\nfor idx in torch.nonzero(t > 0, as_tuple=False):\n    pos = tuple(idx.tolist())\n    acc = acc + t[pos]\nr = acc",
     "w = torch.where(t > 0)\nr = len(w) + w[0].sum()",
